@@ -70,7 +70,8 @@ pub fn run(req: &Sx) -> (Sx, Sx) {
             if ol[0].as_atom() == "u" { (ol[1].as_str().to_string(), ol[2].as_atom().parse().unwrap()) } else { (String::new(), 0) }
         })
         .collect();
-    let init: Fs = variants.iter().map(|(n, vs)| (n.clone(), vs[0].clone())).collect();
+    // a file whose first variant is the marker ABSENT does not exist until its first update
+    let init: Fs = variants.iter().filter(|(_, vs)| vs[0] != "@@ABSENT@@").map(|(n, vs)| (n.clone(), vs[0].clone())).collect();
     let h = std::thread::Builder::new()
         .stack_size(64 << 20)
         .spawn(move || {
